@@ -204,6 +204,9 @@ func (r *Run) Absorb(name string, st *gosym.ExploreStats, bounds string) {
 	r.mu.Lock()
 	defer r.mu.Unlock()
 	r.Stats = append(r.Stats, st)
+	if os.Getenv("VERIF_PROGRESS") != "" {
+		fmt.Printf("[%6.1fs] %s: paths=%d completed=%d inconclusive=%v queries=%d wall=%.1fs\n", time.Since(r.Start).Seconds(), name, st.Paths, st.Completed, st.Inconclusive, st.Solver.Queries, st.Wall)
+	}
 	h, _ := r.Ev.Coverage["harnesses"].([]interface{})
 	inc := map[string]int{}
 	for k, v := range st.Inconclusive {
